@@ -109,3 +109,93 @@ def schedule_scenarios(seed, n):
         out.append({"preset": preset, "dim": dim, "density": dens, "settings": st, "seed": rnd.randrange(1 << 30),
                     "chain": rnd.randrange(3), "init": [rnd.uniform(-1, 1) for _ in range(dim)]})
     return out
+
+
+SAMPLER_GROUPS = [(2, 1, 4), (3, 2, 4), (2, 2, 3), (3, 1, 3), (4, 16, 3), (1, 1, 4), (8, 3, 2)]
+
+
+def user_script(rnd, end=None, allow_pause=True):
+    ops = []
+    paused = False
+    n = rnd.choice([0, 1, 2, 3, 4, 6])
+    for _ in range(n):
+        if rnd.random() < 0.5:
+            ops.append({"op": "sleep", "us": rnd.choice([0, 50, 200, 1000, 5000, 30000])})
+        c = rnd.choice(["pause", "resume", "progress", "flush", "inspect", "pause", "resume"])
+        if c == "pause" and not allow_pause:
+            c = "progress"
+        ops.append({"op": c})
+        if c == "pause":
+            paused = True
+        if c == "resume":
+            paused = False
+    end = end or rnd.choice(["wait", "wait", "abort", "wait_then_abort"])
+    if end == "abort_late":
+        ops.append({"op": "sleep", "us": 60000})
+        ops.append({"op": "abort"})
+    elif end == "abort":
+        if rnd.random() < 0.5:
+            ops.append({"op": "sleep", "us": rnd.choice([0, 100, 3000, 30000])})
+        ops.append({"op": "abort"})
+    else:
+        if end == "wait_then_abort":
+            ops.append({"op": "wait", "ms": rnd.choice([0, 1, 3])})
+            ops.append({"op": "progress"})
+            ops.append({"op": "abort"})
+        else:
+            if paused:
+                # a quiescent observation while paused, then resume so that waiting can end
+                ops.append({"op": "sleep", "us": 20000})
+                ops.append({"op": "progress"})
+                ops.append({"op": "resume"})
+            for _ in range(6):
+                ops.append({"op": "wait", "ms": 4000})
+            ops.append({"op": "abort"})
+    return ops
+
+
+def sampler_scenarios(seed, per_group, faults="none"):
+    """faults: none | density (recoverable only) | failures (fatal / storage / init / model)"""
+    rnd = random.Random(seed)
+    out = []
+    for (chains, cores, draws) in SAMPLER_GROUPS:
+        for r in range(per_group):
+            preset = rnd.choice(["diag_nuts", "diag_nuts", "diag_nuts", "lowrank_nuts", "diag_mclmc"])
+            nt = rnd.randrange(0, draws + 1)
+            st = {"num_tune": nt, "num_draws": draws - nt, "num_chains": chains, "seed": rnd.randrange(1 << 30)}
+            if "nuts" in preset:
+                st["maxdepth"] = rnd.choice([2, 3, 4])
+            else:
+                st["step_size"] = 0.5
+                st["momentum_decoherence_length"] = 1.0
+            dim = rnd.choice([2, 3])
+            sc = {"preset": preset, "dim": dim, "density": rnd.choice(DENS[:5]), "settings": st, "num_cores": cores,
+                  "sched_seed": rnd.randrange(1 << 30), "sched_amp_us": rnd.choice([50, 200, 800]),
+                  "group": [chains, cores, draws]}
+            if rnd.random() < 0.4:
+                sc["delays"] = [[rnd.randrange(chains), rnd.choice([100, 400])]]
+            if faults == "none":
+                sc["script"] = user_script(rnd)
+            elif faults == "density":
+                sc["faults"] = [[rnd.randrange(chains), rnd.randrange(3, 60), rnd.choice(NONFATAL)]
+                                for _ in range(rnd.choice([1, 2, 4]))]
+                sc["script"] = user_script(rnd, end="wait", allow_pause=False)
+            else:
+                kind = rnd.choice(["fatal", "fatal", "storage", "init", "model", "two"])
+                c = rnd.randrange(chains)
+                if kind in ("fatal", "two"):
+                    sc["faults"] = [[c, rnd.choice([3, 8, 15, 25, 40]), "FatalErr"]]
+                if kind in ("storage", "two"):
+                    sc["storage_faults"] = [[(c + 1) % chains if kind == "two" else c, rnd.randrange(draws)]]
+                if kind == "init":
+                    sc["init_fail"] = [c]
+                if kind == "model":
+                    sc["math_fail"] = [c]
+                sc["fail_kind"] = kind
+                sc["script"] = user_script(rnd, end=rnd.choice(["wait", "wait", "abort_late"]), allow_pause=False)
+                if sc["script"][-1]["op"] != "abort" or True:
+                    pass
+                if sc["script"] and sc["script"][-1]["op"] == "abort" and len(sc["script"]) >= 7:
+                    pass
+            out.append(sc)
+    return out
